@@ -351,12 +351,16 @@ def check_pair(prog: Program, res: Result) -> None:
            f"the loop iterates `{short(d, 50) if d is not None else '?'}`", f"{fi.module.relpath}:{lp.lineno}")
     # false negatives are the remaining pool
     fn = [s for s in walk_function(fi.node) if isinstance(s, ast.Assign) and norm(s.targets[0]) == fneg_n]
-    ok = len(fn) == 1 and not astq.enclosing_loops(fn[0]) and fn[0].lineno > lp.lineno and any(isinstance(c, ast.comprehension) and norm(c.iter) == pool for c in ast.walk(fn[0].value))
+    def _is_pool(e):   # the pool itself, a copy of it, or a comprehension over it
+        return norm(e) == pool or (isinstance(e, ast.Call) and norm(e.func) in ("list", "tuple") and len(e.args) == 1 and norm(e.args[0]) == pool) \
+            or any(isinstance(c, ast.comprehension) and norm(c.iter) == pool for c in ast.walk(e))
+    ok = len(fn) == 1 and not astq.enclosing_loops(fn[0]) and fn[0].lineno > lp.lineno and _is_pool(fn[0].value)
     res.ob(R, ok, fi.qualname, "false negatives = the pool after the loop", "false_negatives is not computed from the remaining pool after the loop", fi.where)
     # pool initialised with every ground truth index
     init = [s for s in walk_function(fi.node) if isinstance(s, ast.Assign) and norm(s.targets[0]) == pool and not astq.enclosing_loops(s)]
     gt_param = fi.pos_params[0] if fi.pos_params else "frame_gt"
-    ok = len(init) == 1 and astq.xnorm(fi.node, init[0].value) == f"list(range(len(get_instances({gt_param}))))"
+    # an index pool over all ground-truth instances, or the list of those instances itself
+    ok = len(init) == 1 and astq.xnorm(fi.node, init[0].value) in (f"list(range(len(get_instances({gt_param}))))", f"get_instances({gt_param})", f"list(get_instances({gt_param}))")
     res.ob(R, ok, fi.qualname, "pool starts with every ground-truth instance", f"the pool is initialised as `{short(init[0].value, 50) if init else '?'}`", fi.where)
     # the pools are ALL instances of the frames: get_instances wraps every instance (no filter, no early exit), so that
     # matched + missed accounts for every ground-truth instance
